@@ -1,6 +1,8 @@
 package ircomp
 
 import (
+	"math"
+
 	"github.com/arnodel/golua/code"
 	"github.com/arnodel/golua/ir"
 )
@@ -70,6 +72,11 @@ func (kc *ConstantCompiler) ProcessCode(c ir.Code) {
 		instr.ProcessInstr(ic)
 	}
 	end := kc.builder.Offset()
+	if end-start > math.MaxInt16 {
+		// The program counter of a Lua continuation and jump offsets are 16 bit
+		// signed integers.
+		panic(newPanic("function too large"))
+	}
 	kc.addCompiled(code.Code{
 		Name:         c.Name,
 		StartOffset:  start,
